@@ -223,6 +223,18 @@ func init() {
 						c.Narrow(one())
 					}
 				}
+				// the same words delivered one byte at a time give the same draw
+				if ti%4 == 0 {
+					tc := NewTape(TapeSpec{Mode: "raw", Words: tp, Default: "zero", Chunk: "one"})
+					tc.limit = 8192
+					cres := under(tc, func(r *OpResult) { r.F = float64(spg.VerifRandomUint32n(n)) })
+					c.Fault("chunk-one-byte-reads", 1)
+					if cres.Kind != "ok" || uint32(cres.F) != o.res || len(tc.Served) != o.bytes {
+						c.Violate("chunking-changes-draw", "", "n=%d tape %v: delivered whole the draw gives %d (%d bytes), delivered one byte per read it gives %s (%d bytes)", n, tp, o.res, o.bytes, cres.brief(), len(tc.Served))
+						c.Narrow(one())
+						continue
+					}
+				}
 				// fast filter against M-draw; disagreement escalates to exact counting
 				for i, w := range cons {
 					mr, macc := mdraw(n, w)
